@@ -30,6 +30,7 @@ _FS = None
 
 class C15(Prop):
     id = "C15"
+    noise_sample = 300
     gen_module = "FsVarsGen"
     judge_module = "FsVarsJudge"
     assumptions = [
